@@ -1,5 +1,6 @@
 import PytezosModel.Props.C07
 #print axioms C07.sign_verify
+#print axioms C07.sign_payload
 #print axioms C07.verify_true_iff
 #print axioms C07.verify_ok_is_true
 #print axioms C07.verify_rejects
